@@ -74,7 +74,7 @@ def prior_point(ref):
     return [ref.lo[d] + (blo[d] + min(1, bhi[d] - blo[d]) + 0.5) * ref.dx[0][d] for d in range(3)]
 
 
-def query(mods, ref, fsel_expr, l, b, ctx, outside=None, canary=False, prior=None, limit=None):
+def query(mods, ref, fsel_expr, l, b, ctx, outside=None, canary=False, prior=None, limit=None, cpus=None):
     PlotfileCooker = mods['amr_kitchen.plotfile_cooker'].PlotfileCooker
     fs = SymFS()
     ref.write_symfs(fs, '/work/plt')
@@ -99,7 +99,13 @@ def query(mods, ref, fsel_expr, l, b, ctx, outside=None, canary=False, prior=Non
     else:
         point = outside
         what = 'pck[%s](%s)' % (fsel_expr, outside)
-    with patch.Patched(mods, fs, stubs={'amr_kitchen.plotfile_cooker': {'map_coordinates': map_coordinates_stub}}), common.quiet():
+    sched = None
+    if cpus:
+        # the machine: a host with that many CPUs (fewer than the selection has fields)
+        from symx import pool as _pool
+        sched = _pool.Schedule('identity', workers=cpus)
+        what += ' on a host with %d CPUs' % cpus
+    with patch.Patched(mods, fs, stubs={'amr_kitchen.plotfile_cooker': {'map_coordinates': map_coordinates_stub}}, schedule=sched), common.quiet():
         pck = PlotfileCooker('plt') if limit is None else PlotfileCooker('plt', limit_level=limit)
         try:
             sel = pck[fsel]
@@ -201,6 +207,27 @@ def run_case(case):
                     sig = 'C19/history/level%s' % ('0' if l == 0 else '>0')
                     if sig not in viol:
                         viol[sig] = {'signature': sig, 'what': obl.failed[0][0][:300], 'fsel': fe, 'l': l, 'b': b, 'model': ctx.model(), 'prior': prior_point(ref)}
+    # a list selection with more fields than the host has CPUs
+    if len(names) > 2:
+        done = False
+        for l in range(ref.nlev):
+            for b, (blo, bhi) in enumerate(ref.boxes[l]):
+                if done or any(bhi[d] - blo[d] + 1 < 3 for d in range(3)):
+                    continue
+                done = True
+                fe = repr(names)
+
+                def cpath(ctx, fe=fe, l=l, b=b):
+                    return query(mods, ref, fe, l, b, ctx, cpus=2)
+                results, exhaustive, stats = core.explore(cpath, max_paths=400)
+                res.add_explore(results, exhaustive, stats)
+                n += stats['paths']
+                for ctx, obl in results:
+                    if obl is None:
+                        continue
+                    res.add_obl(obl)
+                    if obl.failed and not ctx.flags and 'C19/cpus' not in viol:
+                        viol['C19/cpus'] = {'signature': 'C19/cpus', 'what': obl.failed[0][0][:300], 'fsel': fe, 'l': l, 'b': b, 'model': ctx.model(), 'cpus': 2}
     # a reader opened with a level limit below the plotfile's finest level: the finest SELECTED level answers
     for l in range(ref.nlev - 1):
         for b, (blo, bhi) in enumerate(ref.boxes[l]):
@@ -296,7 +323,7 @@ def make_replay(ref, v):
         comps = [fsel] if isinstance(fsel, int) else ([ref.fields.index(fsel)] if isinstance(fsel, str) else
                  (list(range(ref.nf))[fsel] if isinstance(fsel, slice) else [ref.fields.index(f) if isinstance(f, str) else f for f in fsel]))
         case = {'property': 'C19', 'handler': 'c19', 'signature': v['signature'], 'what': v['what'], 'fsel': v['fsel'], 'point': point,
-                'expected': [float(data[l][b][cell + (c,)]) for c in comps], 'prior': v.get('prior'), 'limit': v.get('limit')}
+                'expected': [float(data[l][b][cell + (c,)]) for c in comps], 'prior': v.get('prior'), 'limit': v.get('limit'), 'cpus': v.get('cpus')}
     with open(os.path.join(d, 'case.json'), 'w') as f:
         json.dump(case, f, indent=1)
     common.write_replay_stub(d)
